@@ -14,12 +14,12 @@ let char_of_ascii (Ascii (b0, b1, b2, b3, b4, b5, b6, b7)) : char =
   let v b i = if b then 1 lsl i else 0 in
   Char.chr (v b0 0 + v b1 1 + v b2 2 + v b3 3 + v b4 4 + v b5 5 + v b6 6 + v b7 7)
 
-let to_coq (s : string) : C13_model.string =
+let to_coq (s : Stdlib.String.t) : C13_model.string =
   let r = ref EmptyString in
-  for i = String.length s - 1 downto 0 do r := String (ascii_of_char s.[i], !r) done;
+  for i = Stdlib.String.length s - 1 downto 0 do r := String (ascii_of_char s.[i], !r) done;
   !r
 
-let of_coq (s : C13_model.string) : string =
+let of_coq (s : C13_model.string) : Stdlib.String.t =
   let b = Buffer.create 16 in
   let rec go = function EmptyString -> () | String (c, r) -> Buffer.add_char b (char_of_ascii c); go r in
   go s; Buffer.contents b
@@ -49,7 +49,7 @@ let kind_of = function
   | "blk" -> KBlock | "pc" -> KProcess false | "pr" -> KProcess true | "ins" -> KInstance
   | k -> failwith ("bad kind " ^ k)
 
-let words l = List.filter (fun w -> w <> "") (String.split_on_char ' ' l)
+let words l = List.filter (fun w -> w <> "") (Stdlib.String.split_on_char ' ' l)
 
 let run_alloc opsfile =
   let st = ref init_state in
@@ -70,9 +70,9 @@ let run_alloc opsfile =
     | _ -> failwith ("bad op line: " ^ line)) (read_lines opsfile)
 
 let show_tok = function
-  | TId s -> of_coq s | TKw s -> String.uppercase_ascii (of_coq s) | TNum s -> of_coq s
+  | TId s -> of_coq s | TKw k -> Stdlib.String.uppercase_ascii (of_coq (kw_name k)) | TNum s -> of_coq s
   | TStr s -> "\"" ^ of_coq s ^ "\"" | TChr c -> Printf.sprintf "'%c'" (char_of_ascii c)
-  | TSym s -> of_coq s | TBad c -> Printf.sprintf "<BAD %d>" (Char.code (char_of_ascii c))
+  | TSym y -> of_coq (sym_name y) | TBad c -> Printf.sprintf "<BAD %d>" (Char.code (char_of_ascii c))
 
 let vhd_files dir =
   let fs = Array.to_list (Sys.readdir dir) in
@@ -90,17 +90,17 @@ let run_check listfile =
          Printf.printf "%s OK decls=%d regions=%d uses=%d assign=%d widthchk=%d varreads=%d insts=%d unknown=%d hides=%s\n"
            id (int_of_n s.sm_decls) (int_of_n s.sm_regions) (int_of_n s.sm_uses) (int_of_n s.sm_assign)
            (int_of_n s.sm_widthchk) (int_of_n s.sm_varreads) (int_of_n s.sm_insts) (int_of_n s.sm_insts_unknown)
-           (String.concat "," (List.map of_coq s.sm_hides))
+           (Stdlib.String.concat "," (List.map of_coq s.sm_hides))
      | Err (code, ctx) ->
-         Printf.printf "%s ERR %s | %s\n" id (of_coq code) (String.concat " " (List.map show_tok ctx)));
-    flush stdout) (cases listfile)
+         Printf.printf "%s ERR %s | %s\n" id (of_coq code) (Stdlib.String.concat " " (List.map show_tok ctx)));
+    Stdlib.flush Stdlib.stdout) (cases listfile)
 
 let run_sites listfile =
   List.iter (fun (id, dir) ->
     List.iter (fun f ->
       let toks = lex (to_coq (read_file f)) in
       match decl_sites None toks with
-      | Some l -> Printf.printf "%s %s : %s\n" id (Filename.basename f) (String.concat " " (List.map of_coq l))
+      | Some l -> Printf.printf "%s %s : %s\n" id (Filename.basename f) (Stdlib.String.concat " " (List.map of_coq l))
       | None -> Printf.printf "%s %s : <reserved word at declaration site>\n" id (Filename.basename f))
       (vhd_files dir)) (cases listfile)
 
@@ -109,4 +109,6 @@ let () =
   | [_; "alloc"; f] -> run_alloc f
   | [_; "check"; f] -> run_check f
   | [_; "sites"; f] -> run_sites f
+  | [_; "lexdump"; f] ->
+      List.iter (fun t -> print_string (show_tok t); print_char ' ') (lex (to_coq (read_file f))); print_newline ()
   | _ -> prerr_endline "usage: driver alloc <ops> | check <list> | sites <list>"; exit 2
